@@ -24,7 +24,7 @@ func init() {
 			"quantity evaluated on the value subtracted from (an overdrawn NFT entry is deleted, not stored negative, so the excess would be created). R8: tokens are delivered once — for every pair of a local credit of a non-sender account and a message " +
 			"that carries tokens on under the function's own name, the guards of the one contradict the guards of the other (destination account present / same shard vs absent / other shard) or no control-flow path joins them. Does NOT decide: the sums, delivery/refund histories, undelivered messages.",
 		Trusted: []string{"math/big semantics", "A-deps", "A-protomsg"},
-		Rules:   []func(*Ctx){c01r1, c01r2, c01r3, c01r4, c01r5, c01r6, c01r7, c01r8, c01r9},
+		Rules:   []func(*Ctx){c01r1, c01r2, c01r3, c01r4, c01r5, c01r6, c01r7, c01r8, c01r9, c01r10},
 	})
 }
 
@@ -1405,6 +1405,16 @@ func shipsUnder(p *Prog, sub *Env, assume []Fact) bool {
 // continuing side of the three transfer functions has no error exit that is decided by the bytes of a forwarded argument
 // (shared with C10-R5). A "well-formedness" test that only the destination side makes strands the tokens: debited, refused,
 // and — the refund runs through the same code — refused again.
+// c01r10: a bounced transfer gives the tokens back: the credit of the three transfer functions is gated by the freeze / pause
+// test bound to the input's own return-after-error flag (shared with C04-R1). With the flag bound to something else — two bools
+// passed in the wrong order at one call site — the refund of a token that was paused or frozen in the meantime is refused, and
+// what the sender shard debited is never restored.
+func c01r10(c *Ctx) {
+	c.shareRule(c04r1, "C04-R1", "C01-R10", "the credit below the transfer functions passes the freeze/pause gate bound to the input's return-after-error flag (a bounced transfer is credited back)", func(o Oblig) bool {
+		return strings.HasPrefix(o.Construct, "ESDTTransfer:") || strings.HasPrefix(o.Construct, "ESDTNFTTransfer:") || strings.HasPrefix(o.Construct, "MultiESDTNFTTransfer:") || o.Kind == "anchor"
+	})
+}
+
 func c01r9(c *Ctx) {
 	c.shareRule(c10r5, "C10-R5", "C01-R9", "the destination side refuses nothing the sender side ships (no destination-only rejection by argument content)", func(o Oblig) bool {
 		return !strings.HasPrefix(o.Construct, "SetUserName") || o.Kind == "anchor"
